@@ -3,7 +3,7 @@
 (gvc_result, caught, caught_by). /repo must be clean; each patch is applied and undone by try_mutant.sh."""
 import json, os, re, subprocess, sys
 claimed=[c['property_id'] for c in json.load(open('/verif/MANIFEST.json'))['checks']]
-EXTRA={'C01':['C03'],'C02':['C03'],'C03':[],'C04':['C15']}   # deque seeds are also run against the iterator check   # tree seeds are also run against the structural check
+EXTRA={'C01':['C03'],'C02':['C03'],'C03':[],'C04':['C15'],'C07':['C08']}   # deque seeds are also run against the iterator check   # tree seeds are also run against the structural check
 only=sys.argv[1:]
 for name in sorted(os.listdir('/verif/seeded')):
     d=os.path.join('/verif/seeded',name)
